@@ -384,6 +384,12 @@ func (l *Loader) preparePhase(item *FetchItem) (*preparedFetch, error) {
 	l.dataBuffer.Lock()
 	defer l.dataBuffer.Unlock()
 
+	if l.ctx.TracingOptions.Enable {
+		// The plan is shared with the requests before this one: a fetch that is skipped
+		// below must not keep, and render, the trace one of them left on it.
+		resetFetchTrace(item)
+	}
+
 	if l.shouldSkipErroredDependencyLocked(item) {
 		return nil, nil
 	}
@@ -499,6 +505,22 @@ type preparedFetch struct {
 	responseCacheItems []caching.Item
 
 	multiEntries []preparedMultiEntry
+}
+
+func resetFetchTrace(item *FetchItem) {
+	if item == nil {
+		return
+	}
+	switch fetch := item.Fetch.(type) {
+	case *SingleFetch:
+		fetch.Trace = nil
+	case *EntityFetch:
+		fetch.Trace = nil
+	case *BatchEntityFetch:
+		fetch.Trace = nil
+	case *MultiEntityFetch:
+		fetch.Trace = nil
+	}
 }
 
 func (l *Loader) shouldSkipErroredDependencyLocked(item *FetchItem) bool {
